@@ -41,6 +41,7 @@ def run_auto(case):
     from harness.engine.baton import Baton, BatonStuck
 
     cfg = case["cfg"]
+    cfg.setdefault("mode", "ansi")
     b = Baton()
     old = (pim.threading, pim.time)
     old_cols = os.environ.get("COLUMNS")
@@ -49,7 +50,14 @@ def run_auto(case):
     trace = [dict(_event("", "new"), cfg=cfg)]
     left = {}
     try:
-        out = Output(b.stream(ansi=True), AnsiFormatter(forced=True))
+        if cfg["mode"] == "plain":  # a not decorated output
+            from clikit.formatter import PlainFormatter
+
+            out = Output(b.stream(ansi=False), PlainFormatter())
+        else:
+            out = Output(b.stream(ansi=True), AnsiFormatter(forced=True))
+        if cfg["mode"] == "quiet":
+            out.set_quiet(True)
         ind = pim.ProgressIndicator(out, interval=cfg["interval"])
         start, end = "".join(cfg["start"]), "".join(cfg["end"])
 
@@ -145,7 +153,11 @@ def same_auto(beh, trace):
 
 def nontrivial_auto(trace):
     """both threads write while the other one is inside the with-block: at least one switch between M and S among
-    the writing steps after the spinner's first frame"""
+    the writing steps after the spinner's first frame; on a plain / quiet output (where the spinner never writes): the
+    spinner takes at least one step between two steps of M"""
+    if trace[0]["cfg"].get("mode", "ansi") != "ansi":
+        th = [e["th"] for e in trace[1:-1] if e["th"] in ("M", "S")]
+        return any(a == "M" and b == "S" for a, b in zip(th, th[1:])) and th.count("S") >= 2
     w = [e["th"] for e in trace if e["op"] == "write"]
     return "S" in w and any(a != b for a, b in zip(w, w[1:]))
 
@@ -164,7 +176,8 @@ def random_case(rng):
         else:
             body.append({"k": rng.choice(["raise", "raise", "interrupt"]), "m": []})
             break
-    cfg = {"w": 40, "interval": rng.choice([100, 100, 100, 50, 200, 0]), "start": list("AAAA"), "end": list("END"), "body": body}
+    cfg = {"mode": rng.choice(["ansi", "ansi", "ansi", "plain", "quiet"]), "w": 40, "interval": rng.choice([100, 100, 100, 50, 200, 0]),
+           "start": list("AAAA"), "end": list("END"), "body": body}
     sched = []
     # a random walk over thread ids and clock advances; elements that are not enabled when their turn comes are
     # skipped by run_auto, so any sequence is a schedule.  Bursts make long runs of one thread likely as well.
@@ -339,11 +352,11 @@ def run(ctx):
         "model (A-layer of ProgressIndicator.auto()/_spin/_display with the display lock, on the cell-level Terminal "
         "model; steps = the yield points of the baton scheduler: every stream write, sleep, Thread.start/join, Event.set/"
         "is_set, Lock.acquire) for every with-body of the configured family, checking NoMix, Joined, EndFrame on every "
-        "state and Terminates under weak fairness; it must find NoMix violated when the lock is taken out of the model. "
+        "state and Terminates under weak fairness, on a decorated (ansi), a not decorated (plain) and a quiet output; it must find NoMix violated when the lock is taken out of the model. "
         "Every schedule of the small bodies with at most 4 pre-emptions (thorough: all their interleavings), pre-emption-bounded schedules of larger bodies "
         "and simulated long ones are enforced step by step on the real ProgressIndicator.auto() running on real threads "
         "under the baton scheduler and compared per step (thread, operation, bytes as terminal ops) and in the outcome; "
-        "seeded random schedules (bodies up to 6 items, intervals 0..200 ms, clock steps 30..250 ms) are recorded and "
+        "seeded random schedules (bodies up to 6 items, intervals 0..200 ms, clock steps 30..250 ms, all three kinds of output) are recorded and "
         "decided by SpinnerTrace (P-clauses on the observed writes).  Manual mode: every reachable state of the "
         "SpinnerManual model up to the depth bound with one call sequence each, replayed under a virtual clock; random "
         "call sequences (<= 50 calls) decided by SpinnerManualTrace.  Non-trivial (automatic): both threads write and "
@@ -358,7 +371,8 @@ def run(ctx):
         "NoMix: every terminal row is blank or exactly one frame ' v m' (v an indicator value, m one of the messages of the "
         "run); a frame with a message that has meanwhile been replaced is not a mixture",
         "EndFrame: when the body does not raise, auto() returns normally and the last non-blank row shows a frame with the end "
-        "message (any indicator value)",
+        "message (any indicator value; ' m' on a not decorated output) with nothing drawn behind it; on a quiet output nothing is "
+        "shown and only the normal return is required.  Joined / Terminates are claimed on every kind of output",
         "Joined: at the moment the with-statement is left (normally or by the body's exception) no thread created by the "
         "indicator is alive; the completion phase of every schedule is fair (round-robin), so not leaving within the budget "
         "means the caller is blocked for ever",
